@@ -467,6 +467,8 @@ func (s *Sim) doAction(client string, a Action) {
 	case "settle-control":
 		s.settleControl(client)
 	case "check-force":
+		// (waits itself, so that the check keeps its meaning when the minimiser drops the wait before it)
+		_ = s.call(client, "wait", PipelineID, func(st *Stack) error { return st.life.WaitPipeline(PipelineID) })
 		w.or.checkForceStopped(w)
 	case "settle-reconf":
 		s.settleReconf(client)
